@@ -208,9 +208,11 @@ const (
 	cManaged
 	cError
 	cNX
+	cPrefix
+	cNearMiss
 )
 
-var cnameNames = []string{"right", "other-client", "right-as-suffix", "managed", "resolver-error", "nxdomain"}
+var cnameNames = []string{"right", "other-client", "right-as-suffix", "managed", "resolver-error", "nxdomain", "right-as-prefix", "right-one-char-off"}
 
 var proofKinds = []string{"valid", "none", "wrong-subject", "expired", "far-future", "low-difficulty", "unsolved", "bad-signature", "other-key"}
 
@@ -335,7 +337,7 @@ func (w *world) run(rng *rand.Rand, wi, nOps int) map[string]int {
 			op = "instruction"
 		}
 		// CNAME answer
-		ck := cnameKind(rng.Intn(6))
+		ck := cnameKind(rng.Intn(len(cnameNames)))
 		if rng.Intn(3) == 0 {
 			ck = cRight
 		}
@@ -354,6 +356,17 @@ func (w *world) run(rng *rand.Rand, wi, nOps int) map[string]int {
 			w.lab.Resolver.SetErr(name, errors.New("SERVFAIL (scripted)"))
 		case cNX:
 			w.lab.Resolver.Clear(name)
+		case cPrefix:
+			// the right target continued into somebody else's zone
+			w.lab.Resolver.Set(name, strings.TrimSuffix(tokenTarget(caller.Token), ".")+".elsewhere.example.net.")
+		case cNearMiss:
+			t := []byte(tokenTarget(caller.Token))
+			if t[0] == 'a' {
+				t[0] = 'b'
+			} else {
+				t[0] = 'a'
+			}
+			w.lab.Resolver.Set(name, string(t))
 		}
 		pk := proofKinds[0]
 		if rng.Intn(100) < 35 {
